@@ -147,6 +147,91 @@ def flatten_sites(P, key, ty):
     return out
 
 
+def splice_headers(P, rep, prefix):
+    """The segments a macro expansion produced are put into the output with their own start address and type, and the decision whether
+    the first of them continues the output's current segment compares it with the output's last segment.
+    (parser::Segment fields are looked up by name; sources are `expanded[0]` = Index(vec, 0) or the element of the splice loop)"""
+    key = "builder::pass0::pass0_internal"
+    b = P.body.get(key)
+    if b is None:
+        rep.unprovable("%s|anchor" % prefix, "pass0_internal not found")
+        return
+    fn = [f["name"] for f in P.lib.adts["parser::Segment"]["variants"][0]["fields"]]
+    fa, ft = fn.index("address"), fn.index("t")
+    ch = MU.Chaser(b)
+
+    def source(op):
+        """-> (kind, id, field path) of a value taken out of an expanded segment"""
+        r = ch.root(op, through_calls=False)
+        if r[0] is None:
+            return None
+        flds = MU.proj_fields(r[1])
+        d = ch.single_def(r[0])
+        if d and d[0] == "call":
+            rp = MU.callee_names(d[2])[1]
+            if rp.endswith("as std::ops::Index<I>>::index") or "ops::Index<" in MU.callee_names(d[2])[0]:
+                v = ch.root(d[2]["args"][0], through_calls=False)[0]
+                ix = d[2]["args"][1].get("const", {}).get("int") if "const" in d[2]["args"][1] else "?"
+                return ("index", (v, ix), flds)
+            if rp.endswith("::next") and "Iterator" in rp:
+                return ("elem", r[0], flds[1:] if flds[:1] == [0] else flds)
+            if rp.endswith("Pass0Context::last_segment") or "RefCell" in rp or "Clone>::clone" in rp or "unwrap" in rp or "Deref>::deref" in rp:
+                locs, consts, calls, places = MU.backward_slice(b, d[2]["args"][:1])
+                if any(MU.callee_names(c)[1].endswith("Pass0Context::last_segment") for c in calls) or rp.endswith("Pass0Context::last_segment"):
+                    return ("last", None, flds)
+        if 1 <= r[0] <= b["arg_count"]:
+            return ("param", r[0], flds)
+        return ("other", r[0], flds)
+
+    adds = [(bb, t) for bb, t, n, tg in P.call_sites(key) if any(x.endswith("Pass0Context::add_segment") for x in tg)]
+    rep.count("segments opened while splicing a macro expansion", len(adds))
+    first_adds = []
+    for bb, t in adds:
+        r = ch.root(t["args"][1], through_calls=False)
+        d = ch.single_def(r[0]) if r[0] is not None else None
+        where = loc_of(b["blocks"][bb]["tspan"])
+        if d and d[0] == "call" and MU.callee_names(d[2])[1] == "<parser::Segment as std::clone::Clone>::clone":
+            src = source(d[2]["args"][0])
+            ok = src is not None and src[0] in ("index", "elem") and not src[2]
+            rep.ob("%s|header|clone" % prefix, ok, "a non-code segment of the expansion is taken over whole" if ok else
+                   "a segment cloned into the output is not one of the expanded segments", loc=where)
+        elif d and d[0] == "stmt" and d[2]["k"] == "agg" and d[2]["kind"].get("path") == "parser::Segment":
+            sa, st_ = source(d[2]["ops"][fa]), source(d[2]["ops"][ft])
+            ok = sa is not None and st_ is not None and sa[0] in ("index", "elem") and sa[:2] == st_[:2] and sa[2] == [fa] and st_[2] == [ft]
+            rep.ob("%s|header|%s" % (prefix, "first" if sa and sa[0] == "index" else "further"), ok,
+                   "the output segment opened for an expanded segment carries that segment's start address and type" if ok else
+                   "a segment opened while splicing does not carry the expanded segment's own address and type (address from %s, type from %s): an `.org` inside the macro body is lost" % (sa, st_), loc=where)
+            if sa and sa[0] == "index":
+                first_adds.append((bb, sa))
+        else:
+            what = MU.callee_names(d[2])[1] if d and d[0] == "call" else "an unrecognised value"
+            rep.ob("%s|header|other" % prefix, False,
+                   "a segment opened while splicing a macro expansion is built by %s, not from the expanded segment's address and type: an `.org` (or segment switch) inside the macro body is lost" % what, loc=where)
+    # the decision for the first expanded segment
+    for bb, sa in first_adds:
+        got = set()
+        for bi, bl in enumerate(b["blocks"]):
+            cands = []
+            for st in bl["stmts"]:
+                if st["k"] == "assign" and st["rv"]["k"] == "bin" and st["rv"]["op"] in ("Ne", "Eq"):
+                    cands.append((st["rv"]["l"], st["rv"]["r"]))
+            t = bl["term"]
+            if t["k"] == "call" and (re.search(r"PartialEq>::(ne|eq)$", MU.callee_names(t)[0]) or re.search(r"PartialEq(<.*>)?::(ne|eq)$", MU.callee_names(t)[1])) and len(t["args"]) == 2:
+                cands.append((t["args"][0], t["args"][1]))
+            for l, r_ in cands:
+                a, c = source(l), source(r_)
+                for x, y in ((a, c), (c, a)):
+                    if x and y and x[0] == "index" and x[:2] == sa[:2] and len(x[2]) == 1:
+                        got.add((x[2][0], y[0] == "last" and y[2] == x[2]))
+        need = {(fa, True), (ft, True)}
+        ok = need <= got
+        rep.ob("%s|first-segment-decision" % prefix, ok,
+               "whether the first expanded segment continues the current output segment is decided by comparing its address and type with the output's last segment" if ok else
+               "the first expanded segment's address/type are not compared with the output's last segment (comparisons found: %s): after a macro that left another segment selected or moved the origin, the next expansion lands in the wrong place" % sorted(got),
+               loc=loc_of(b["blocks"][bb]["tspan"]))
+    rep.floor("segments opened while splicing a macro expansion", len(adds), 3)
+
+
 def run(tier):
     rep = Reporter("C09", tier, "other", "lower-case typestate on macro-table keys; syntactic re-parse-safety of the operand printers (format templates read from MIR); def-use of the splice loop; path rules on macro_expand")
     rep.explanation = ("Macro expansion re-renders each parsed argument to text and re-parses the body, so it can only be faithful if (1) definition "
@@ -242,6 +327,8 @@ def run(tier):
                 got.add("".join(x[1] if x[0] == 'lit' else "{}" for x in tpl))
         rep.ob("C09.print|%s" % ty, got == shapes, "%s prints the grammar's own syntax %s" % (ty.split("::")[-1], sorted(got)) if got == shapes else
                "%s prints %s, the grammar expects %s" % (ty.split("::")[-1], sorted(got), sorted(shapes)))
+    # ---- 3a. headers of the spliced segments
+    splice_headers(P, rep, "C09.splice")
     # ---- 3. splice loop
     key = "builder::pass0::pass0_internal"
     b = P.body.get(key)
